@@ -75,6 +75,8 @@ def to_wire(v, t):
         return bool(v)
     if t in ('N', 'I'):
         return int(v)
+    if t == 'X':
+        return True
     if isinstance(t, str):
         return [to_wire(getattr(v, slot), ft) for (slot, ft) in STRUCT_SLOTS[t]]
     if t[0] == 'opt':
@@ -118,6 +120,8 @@ def canon_real(v, t):
         return v
     if t in ('N', 'I'):
         return int(v)
+    if t == 'X':
+        return True
     if isinstance(t, str):
         if isinstance(v, (tuple, list)):
             return [fr(x) for x in v]
@@ -155,6 +159,8 @@ def canon_wire(j, t):
         return bool(j)
     if t in ('N', 'I'):
         return int(j)
+    if t == 'X':
+        return True
     if isinstance(t, str):
         return [canon_wire(x, ft) for x, (slot, ft) in zip(j, STRUCT_SLOTS[t])]
     if t[0] == 'opt':
@@ -391,6 +397,37 @@ class Gen(object):
             pl = self.value('PlaneS', 'Plane', stream)
             a = self.value('Arc2S', 'Arc2D', stream)
             return Arc3D(pl, a.r, a.a1, a.a2)
+        if isinstance(t, tuple) and t[0] == 'list' and t[1] in ('V2', 'V3'):
+            if t[1] == 'V2':
+                return list(self.value('Poly2C', 'Polygon2D', stream).vertices)
+            pl = self.value('PlaneS', 'Plane', 'real')
+            return [pl.xy_to_xyz(v) for v in self.value('Poly2C', 'Polygon2D', stream).vertices]
+        if t == 'Poly2C':
+            from ladybug_geometry.geometry2d.polygon import Polygon2D
+            n = r.randint(3, 9)
+            cx, cy = s(), s()
+            angs = sorted(r.sample(range(32), n))
+            pts = []
+            for a in angs:
+                rad = r.choice([1.0, 2.0, 3.0, 1.5]) if stream == 'lattice' else \
+                    r.uniform(0.5, 5.0)
+                if stream == 'lattice':
+                    # dyadic points on a coarse "star" so that arithmetic stays exact
+                    dx, dy = [(4, 0), (4, 1), (3, 2), (2, 3), (1, 4), (0, 4), (-1, 4), (-2, 3),
+                              (-3, 2), (-4, 1), (-4, 0), (-4, -1), (-3, -2), (-2, -3),
+                              (-1, -4), (0, -4), (1, -4), (2, -3), (3, -2), (4, -1)][a % 20]
+                    pts.append(Point2D(cx + dx * rad / 2, cy + dy * rad / 2))
+                else:
+                    t_ = 2 * math.pi * a / 32
+                    pts.append(Point2D(cx + rad * math.cos(t_), cy + rad * math.sin(t_)))
+            if r.random() < 0.5:
+                pts.reverse()
+            poly = Polygon2D(pts)
+            for prop in ('area', 'is_clockwise', 'perimeter', 'is_convex', 'min', 'center',
+                         'segments', 'is_self_intersecting', 'inside_angles'):
+                if r.random() < 0.4:
+                    getattr(poly, prop)
+            return poly
         if t == 'SphereS':
             return Sphere(Point3D(s(), s(), s()), abs(s()) + 0.25)
         if t == 'ConeS':
